@@ -117,6 +117,7 @@ def analyse(r, fam, res):
 
 def run(r):
     r.require_theorems(1)
+    r.run_witnesses()
     n = 300 if r.tier == "quick" else 5000
     res = r.run_family("rang3", n=n)
     analyse(r, "rang3", res)
